@@ -2,6 +2,7 @@
 import itertools
 
 from common import coq_bool, coq_options, coq_string
+import obs
 
 ID = "C11"
 REQUIRES = ["Agree", "C11Spec"]
@@ -41,8 +42,10 @@ def render(pairs, rng, use=True):
     # an unbound private variable in between must not disturb anything
     if rng.random() < 0.3:
         lines.insert(rng.randrange(len(lines) + 1), "var<private> scratch: f32;")
-    stage = rng.choice(["@compute @workgroup_size(1)", "@fragment", "@vertex"])
-    if stage == "@vertex":
+    stage = rng.choice(["@compute @workgroup_size(1)", "@fragment", "@vertex", "none"])
+    if stage == "none":
+        pass        # a module without any entry point: the numbering contract holds all the same
+    elif stage == "@vertex":
         lines.append("@vertex fn main() -> @builtin(position) vec4<f32> { return vec4<f32>(0.0); }")
     else:
         lines.append("%s fn main() {}" % stage)
@@ -96,13 +99,41 @@ def cases(rng, tier):
     return out
 
 
+def _accepts(c):
+    ps = c.get("truth_pairs", [])
+    gs = sorted({g for g, _ in ps})
+    return len(set(ps)) == len(ps) and gs == list(range(len(gs))) and max([b for _, b in ps] + [0]) < 2 ** 31
+
+
+def run_cases(plain, cases_, workdir, tag):
+    # behavioural level: 40 modules the generator must accept are compiled against the recording shim
+    return obs.attach(plain, cases_, workdir, tag, _accepts, 40 if "search" not in tag else 0)
+
+
+def _obs(c, r):
+    if "obs" not in r or r.get("result") != "ok":
+        return "true"
+    if not obs.usable(r):
+        c["note"] = "module did not build / run on the shim: %s" % str(r.get("obs"))[:300]
+        return "false"
+    ok, why = obs.check_c11(c["truth_pairs"], r)
+    c["note"] = why
+    return "true" if ok else "false"
+
+
+def verdict_expr_noout(c, r, ir):
+    if "obs" not in r:
+        return None
+    return "[true; false; %s]" % _obs(c, r)
+
+
 def verdict_expr(c, r, ir, real):
     preempt = bool(c["opts"].get("validate")) and r.get("valid") is False
     truth = "[" + "; ".join("(%d%%N, %d%%N)" % (g, b) for g, b in c.get("truth_pairs", [])) + "]"
     has_truth = "truth_pairs" in c
     gt = ("list_eqb nn_eqb (pairs %s) %s" % (ir, truth)) if has_truth else "true"
-    return ('[wf_global_types %s && %s; agree_res agree_C11 (gen %s ""%%string None %s) %s; C11_ok %s %s %s]'
-            % (ir, gt, ir, coq_options(c["opts"]), real, ir, coq_bool(preempt), real))
+    return ('[wf_global_types %s && %s; agree_res agree_C11 (gen %s ""%%string None %s) %s; C11_ok %s %s %s && %s]'
+            % (ir, gt, ir, coq_options(c["opts"]), real, ir, coq_bool(preempt), real, _obs(c, r)))
 
 
 def nontrivial(c, r):
